@@ -21,6 +21,9 @@ ALSO = ("Also not acceptable any more (seen many times): pointers into cached da
         "odd map keys, multi-byte separators, '%' or '@' in tag values, unbalanced quotes in literals, duplicate neighbouring fields, long tag names, tolerance in float comparison, white-space-only values, "
         "bracket characters inside in/include options, lazily created package state, reference cycles between types, two-phase locking in Load, temp-file names, worker pools in the CLI, the idcard check digit, JSON longer than 256 bytes, float rendering, "
         "slice capacity, non-ASCII digits or look-alike characters, func/chan/complex fields, empty maps with wrong key types, capacity-0 caches, empty Set calls, the ErrEndFlag variable, rule-less URL parameters, query-only URLs, leaked locks, two rule maps to Struct, sorting callers' slices, aliased pointers, flushing per element, //line directives, interpreted string literals, repeated @tag markers, first-key overrides, leading white space in files, zero-size structs, scratch-buffer flush thresholds, arrays under required/exist, GetOr-style defaults, negative eq bounds, e-mail domains without a dot, read-only or unreadable files, missing directories and bad glob patterns, "
+        "percent-encoded parameter NAMES, publishing a cache entry before it is complete, verdict of the last slice element only, kinds missing from the required descent, deleting from the caller's rule map, falling back to the default tag, pointers to collections, labels built from the type name instead of the path, the zero time, JSON numbers out of range, doc comments, TrimLeft/TrimRight cut sets, colons in tag values, files without a final newline, "
+        "pre-filling cache entries for other tags, digests of tag names, ghost map entries after a rebuild, TryLock, check-then-act on the capacity, a second mutex, deferred work after the unlock, an object put into the wrong pool, return inside the loop over groups, a shared name buffer, dir on a regular file, lookup tables indexed by reflect.Kind, '%' and format strings, an empty value after '=', quoted values with a message, arguments in the wrong slot, return instead of continue on nil elements, "
+        "letter case of rule names or arguments, an unknown rule in front of a group rule, %3D / %26 inside URL values, float map values, directory names that are glob patterns, a changed-flag overwritten in a loop, numeric map keys in the dumper, apostrophes, "
         "group keys, a second '?' in a URL, trailing data after JSON, messages containing '=', unexported fields named by a rule map, nil interfaces, control characters, multi-line comments, exit status / && short-circuits, empty slices. "
         "First read ALL non-test source files and the README; make a list of every function, branch and documented behaviour relevant to this property "
         "that NONE of the items above touches, and pick from that list. Prefer faults in code paths that look boring (helpers in common.go / init.go / "
